@@ -608,7 +608,8 @@ pub fn build(pattern: &str, casei: bool, limit: Option<usize>) -> Result<Built, 
     match &regex.inner {
         RegexImpl::Wrap { inner, .. } => {
             fancy = false;
-            n_groups = inner.captures_len();
+            // the number of groups a caller sees through `captures()` (Captures::len)
+            n_groups = inner.group_info().group_len(regex_automata::PatternID::ZERO);
             prog_len = 0;
             max_repeat = 0;
             let (p, cfg) = log.get(0).ok_or_else(|| "SYMX: no delegate recorded for Wrap".to_string())?;
